@@ -1,6 +1,8 @@
 """C07 - decoding validates untrusted bytes; encoding is canonical and round-trips
 (DESIGN.md section 4, C07).  Spec: model/Codec (+ MCCodec exhaustive check), binding:
-harness/drv_codec.c -> trace/CodecTrace (model/CodecSpec)."""
+harness/drv_codec.c -> trace/CodecTrace (model/CodecSpec).
+Second part (binary fields and binary curves):
+model/CodecB (+ MCCodecB), harness/drv_codec2.c -> trace/Codec2Trace (model/Codec2Spec)."""
 import os
 import random
 import threading
@@ -134,7 +136,7 @@ def MC_RUNS2(quick):
              "bit, encode/decode round trips, all strings of length <= 1 and tag x bytes below 2^(m+1) (+128, 255) of "
              "length 2, 3: accepted = canonical; field elements binary and text in every power-of-two radix", False)]
     if not quick:
-        runs += [("MCCodecB", "MCCodecB_m5", "GF(8) (second polynomial), GF(32) (two polynomials): every a, every b (2040 curves)", False)]
+        runs += [("MCCodecB", "MCCodecB_m5", "GF(8) (second polynomial), GF(32) (two polynomials): a in 0..7 (both trace classes), every b (552 curves)", False)]
     return runs
 
 
@@ -210,7 +212,7 @@ def run(tier, seed):
     rng = random.Random(seed)
     quick = tier == "quick"
     # second part (binary fields / curves): gated until it passes on the unchanged tree
-    part2_on = os.environ.get("C07_PART2") == "1"
+    part2_on = os.environ.get("C07_PART2") != "0"                      # (C07_PART2=0: the first part only - a debugging aid)
     only2 = part2_on and os.environ.get("C07_PART2_ONLY") == "1"      # debugging aid: the second part alone
     ev.cov["trusted_base"] = core.TRUSTED
     if only2:
